@@ -51,8 +51,10 @@ MkInput(ptr, name, defs, uses, pert, en) ==
                   [] OTHER -> <<>>
       (* m also has a type of its own (`Own`) that R embeds; the nested module a::n refers to `W`, *)
       (* which it sees through the module import `use b`                                        *)
-      Own == TypeDef("Own", "pub", <<Field("v", "pub", <<>>, TArr(TNm("u8"), 3), None, FALSE)>>)
-      R2 == [R EXCEPT !.fields = Append(@, Field("o", "pub", <<>>, TNm("Own"), None, FALSE)), !.packed = TRUE]
+      Own == TypeDef("Own", "pub", <<Field("v", "pub", <<>>, TArr(TNm("i8"), 3), None, FALSE)>>)
+      (* ... and a gap: `unknown<N>` is N bytes whatever a type called `u8` may be in scope *)
+      R2 == [R EXCEPT !.fields = @ \o <<Field("o", "pub", <<>>, TNm("Own"), None, FALSE), Field("_", "priv", <<>>, TUnk(2), None, FALSE)>>,
+                      !.packed = TRUE]
       W(sz) == TypeDef("W", "pub", <<Field("v", "pub", <<>>, TArr(TNm("u8"), sz), None, FALSE)>>)
       RN == [TypeDef("RN", "pub", <<Field("w", "pub", <<>>, TNm("W"), None, FALSE)>>
                                     \o (IF "n" \in defs THEN <<Field("own", "pub", <<>>, TNm(name), None, FALSE)>> ELSE <<>>))
@@ -128,7 +130,7 @@ Inv_C11 ==
              wsize == IF Len(Bound) = 1 THEN BuiltinSizeOf(Bound[1]) ELSE SizeOfPath(Bound)
              g == r.methods[CHOOSE j \in DOMAIN r.methods : r.methods[j].name = "g"]
          IN /\ r.fields[1].ty = want
-            /\ reg[<<"m", "R">>].res.size = wsize + 3
+            /\ reg[<<"m", "R">>].res.size = wsize + 5
             /\ g.args[2].ty = RCPtr(want) /\ g.ret = RMPtr(want)
             /\ (ShadowBound # <<>> => CrateItemAt(Crate, <<"a", "n">>).fields[1].ty = RRaw(ShadowBound))
             /\ (HasEn => reg[<<"m", "En">>].res.size = 2)
@@ -160,7 +162,7 @@ ReplayRecord ==
   [group |-> "scope", input |-> input, order |-> added, sched |-> hist,
    accepted |-> Accepted, err |-> err, pviol |-> IF Terminal THEN PViol ELSE {},
    oracle |-> [bound |-> Bound, accept |-> ShouldAccept, shadowBound |-> ShadowBound, en |-> HasEn,
-               size |-> IF Bound = <<>> THEN None ELSE 3 + (IF Len(Bound) = 1 THEN BuiltinSizeOf(Bound[1]) ELSE SizeOfPath(Bound)),
+               size |-> IF Bound = <<>> THEN None ELSE 5 + (IF Len(Bound) = 1 THEN BuiltinSizeOf(Bound[1]) ELSE SizeOfPath(Bound)),
                kf |-> <<>>],
    mirror |-> [reg |-> RegView, out |-> out]]
 
